@@ -145,6 +145,7 @@ func (f *rnsFam) Apply(st M) M {
 			}
 		}()
 		ev["yp"] = yp
+		ev["base"] = rtypes.TLDCost[tld] // the listed per-TLD base price (exported table); not part of the label
 		msg = &rtypes.MsgRegisterName{Creator: who.S(), Name: f.spell(n), Years: geti(st, "y"), Data: gets(st, "data"), SetPrimary: getb(st, "prim")}
 	case "list":
 		msg = &rtypes.MsgList{Creator: who.S(), Name: f.spell(n), Price: coinOf(getm(st, "p"))}
